@@ -2,6 +2,8 @@
 from engine.anl.origin import fmt, subterms
 from .common import S, co, calls_norm, is_call_term, var_name, render_path, param
 
+from .common import ok_return_blocks as _okret
+
 EXPLANATION = (
     "Static decision of the reuse plumbing: (R13.1) in Client::create_stream a new session is dialled only on the None edge of "
     "get_idle_session, and the Some edge returns the pooled session; (R13.2) a session taken out of the idle map must be able to come "
@@ -109,7 +111,7 @@ def r6_dialled_session_is_pooled(ctx):
         return
     cfg = ctx.cfg(body)
     add = calls_norm(body, "SessionPool::add_idle_session")
-    ok_rets = [bi for kind, bi, si, rv in body.defs().get(0, []) if kind == "assign" and rv["r"] == "aggregate" and rv["kind"].get("variant") == "Ok"]
+    ok_rets = _okret(body, ctx.origins(body))
     if not ok_rets:
         ctx.missing("R13.6", "Ok return of create_new_session")
         return
